@@ -313,6 +313,10 @@ def session(root, hist, start, t0, compress):
     import copy
     warnings.simplefilter("ignore")
     __import__("logging").disable(50)
+    # every session gets another address-space layout (sessions are forks of one process: without this, object
+    # addresses -- which leak into reprs and ids -- would coincide between "processes", unlike real restarts)
+    global _LAYOUT_PAD
+    _LAYOUT_PAD = [bytearray(64 + (start * 37 + k) % 200) for k in range(500 + 131 * (start + 1))]
     clock = simfs.Clock(t0).install()
     umod = simfs.load_module(root, "umod")
     mem = Memory(os.path.join(root, "cache"), verbose=0, compress=compress)
